@@ -73,6 +73,14 @@ DamageOps == <<
   [name |-> "reserved-directive-without-start-comment", kind |-> "stream", frag |-> <<"%", "F", "O", "O", " ", "x", "\n", "#", " ", "c", "\n", "-", " ", "a", "\n">>],
   [name |-> "reserved-directive-without-start-empty", kind |-> "stream", frag |-> <<"%", "F", "O", "O", " ", "x", "\n">>],
   [name |-> "reserved-directive-without-start-later-document", kind |-> "stream", frag |-> <<"-", "-", "-", " ", "a", "\n", ".", ".", ".", "\n", "%", "F", "O", "O", " ", "x", "\n", "[", "b", "]", "\n">>],
+  [name |-> "tab-before-compact-seq-in-seq", kind |-> "doc", frag |-> <<"-", "\t", "-", " ", "a", "\n">>],
+  [name |-> "space-tab-before-compact-seq-in-seq", kind |-> "doc", frag |-> <<"-", " ", "\t", "-", " ", "a", "\n">>],
+  [name |-> "tab-before-compact-seq-in-key", kind |-> "doc", frag |-> <<"?", "\t", "-", " ", "a", "\n">>],
+  [name |-> "tab-before-compact-seq-in-value", kind |-> "doc", frag |-> <<"?", " ", "-", " ", "a", "\n", ":", "\t", "-", " ", "b", "\n">>],
+  [name |-> "tab-before-compact-map-in-key", kind |-> "doc", frag |-> <<"?", "\t", "k", ":", " ", "v", "\n">>],
+  [name |-> "tab-before-compact-map-in-value", kind |-> "doc", frag |-> <<"?", " ", "k", ":", " ", "v", "\n", ":", "\t", "j", ":", " ", "w", "\n">>],
+  [name |-> "tab-before-compact-map-quoted-key-in-value", kind |-> "doc", frag |-> <<"?", " ", "k", "\n", ":", "\t", "\"", "j", "\"", ":", " ", "w", "\n">>],
+  [name |-> "tab-before-nested-explicit-key", kind |-> "doc", frag |-> <<"?", "\t", "?", " ", "a", "\n">>],
   [name |-> "content-after-document-end-2", kind |-> "stream", frag |-> <<"a", ":", " ", "b", "\n", ".", ".", ".", " ", "-", " ", "c", "\n">>] >>
 
 \* base: a well-formed stream ending with a line break (its text). placement: 0 = own document, 1 = nested
